@@ -12,6 +12,7 @@ UNITS = {
     'phon': 'PhoneticSuggestion::{add_suffix_to_suggestions, suggest_only_phonetic, suggestion_with_dict, suggest, get_prev_selection}',
     'pmeth': 'PhoneticMethod under an adversarial environment (new, key, backspace, commit, update_engine)',
     'data': 'Data::new: the bundled tables are a function of the data directory alone',
+    'layout_get': 'Layout::layout_get_value / layout_get_value_numpad: entry name, empty = none, key pad only with the option on',
 }
 
 COMMON_TRUST = ('Trusted: Verus/Z3/rustc; the extractor/assembler (round-trip checked, item hashes in the evidence); std contracts '
@@ -22,7 +23,7 @@ PLAN = {
     'C01': {
         'bounded': ['phonetic_api', 'fixed_api', 'fixed_rules', 'user_files', 'suffix_forms'], 'static': ['context_glue'], 'kani': ['k_keycode_to_char'],
         'level': 'proof', 'safety': True,
-        'units': ['fixed_pkv_common', 'fixed_reph', 'fixed_session', 'layout', 'rank', 'util', 'phon', 'pmeth', 'data'],
+        'units': ['fixed_pkv_common', 'fixed_reph', 'fixed_session', 'layout', 'layout_get', 'rank', 'util', 'phon', 'pmeth', 'data'],
         'technique': 'Verus built-in safety obligations (unwrap/index/slice/overflow/termination) on extracted real functions under data-structure invariants',
         'claim': 'Every extracted riti function (both methods, Rank/Suggestion, layout, utility) is proved free of panics, failed unwraps, out-of-bounds or off-boundary slices, arithmetic overflow and non-termination for ALL inputs satisfying the stated invariants (ASCII buffer, memo transparency, in-range commit index), and every API operation is proved to re-establish those invariants; keys without a character are ignored; a memo entry is proved to hold the direct hits of its word only, so the suffix pass multiplies lists whose size does not depend on the history.',
         'note': COMMON_TRUST + 'Not decided: panics inside okkhor/regex/poriborton/emojicon, sort panic-freedom for non-total comparators, RefCell double borrow, time complexity beyond termination; T2 functions (split, internal_backspace_step, search_dictionary, include_from_dictionary, layout_get_value) only have assumed contracts here.',
@@ -46,10 +47,10 @@ PLAN = {
     'C04': {
         'bounded': ['layout_values', 'update_engine'], 'kani': ['k_modifiers_plane'],
         'level': 'proof',
-        'units': ['layout', 'fixed_pkv_off', 'fixed_session'],
+        'units': ['layout', 'layout_get', 'fixed_pkv_off', 'fixed_session'],
         'technique': 'Verus: get_char_for_key for all u16 codes vs riti.h-generated table; plane chosen by the AltGr bit only; frame/append postconditions of get_suggestion',
         'claim': 'Proof over all 65536 key codes, all modifier bytes and both number-pad settings that the value handed to the composer is exactly the layout entry the riti.h key name designates (plane from the AltGr bit only, key pad only with the option on, empty/missing entry = nothing), that a key without a value changes no state, and that with all helpers off an idle context holds exactly that value afterwards; Layout::parse and FixedMethod::new are proved to hold, whatever the options are, the whole entry table of the configured layout file (load marker), and every event function leaves the layout untouched.',
-        'note': COMMON_TRUST + 'layout_get_value(_numpad) (format!/closure) are T2: assumed contract over the abstract layout map, finite call-site conformance check; the transcription of riti.h macro names into entry names is hand-written (tools/gen_keytable.py); Config::get_layout and serde_json::from_value are T3 (the file content is the environment\'s); the bounded check update_engine also flips the number-pad option on a live context.',
+        'note': COMMON_TRUST + 'layout_get_value(_numpad) are proved in unit layout_get against the String-keyed view of the real map (entry Key_<name>_<plane> / <name>, empty = none, key pad only with the option on); only std format! + `impl Display for LayoutModifiers` ("Normal" / "AltGr") stay T3, covered by the exhaustive bounded check layout_values; the transcription of riti.h macro names into entry names is hand-written (tools/gen_keytable.py); Config::get_layout and serde_json::from_value are T3 (the file content is the environment\'s); the bounded check update_engine also flips the number-pad option on a live context.',
     },
     'C05': {
         'bounded': ['history_independence'], 'static': ['no_shared_state'],
